@@ -12,6 +12,8 @@ UNITS = {
     "dispatch": [("async",)],
     "handle_async": [("async",)],
     "handle": [()],
+    "timestamps": [()],
+    "dnow": [()],
     "naming": [()],
     "listing": [()],
 }
@@ -22,16 +24,16 @@ PROP_UNITS = {
     "C02": [("spec", TF), ("logger", TF), ("handle_c", TF)],
     "C04": [("state", ()), ("handle", ()), ("flw", ())],
     "C05": [("handle_a", TF), ("handle_b", TF), ("handle_b2", TF), ("handle_c", TF), ("spec", TF)],
-    "C06": [("state", ())],
+    "C06": [("state", ()), ("timestamps", ())],
     "C07": [("state", ()), ("listing", ())],
     "C08": [("state", ())],
-    "C09": [("state", ())],
+    "C09": [("state", ()), ("timestamps", ())],
     "C13": [("logger", TF), ("flw", ()), ("multi", ())],
-    "C14": [("state", ()), ("listing", ()), ("naming", ())],
+    "C14": [("state", ()), ("listing", ()), ("naming", ()), ("timestamps", ())],
     "C15": [("state", ()), ("handle", ()), ("flw", ()), ("dispatch", ("async",)), ("handle_async", ("async",))],
     "C16": [("naming", ()), ("listing", ()), ("state", ())],
     "C18": [("state", ()), ("handle", ())],
-    "C19": [("state", ()), ("logger", TF), ("multi", ())],
+    "C19": [("state", ()), ("logger", TF), ("multi", ()), ("timestamps", ())],
 }
 
 # property -> Kani groups (see lib/kani_unit.py)
